@@ -308,6 +308,14 @@ func (ex *Exchange[H]) GetRangeByHeight(
 	from H,
 	to uint64,
 ) ([]H, error) {
+	if to <= from.Height()+1 {
+		return nil, fmt.Errorf(
+			"header/p2p: invalid range: to(%d) must be greater than from(%d)+1",
+			to,
+			from.Height(),
+		)
+	}
+
 	ctx, span := tracerClient.Start(ctx, "get-range-by-height",
 		trace.WithAttributes(
 			otelattr.Uint64("from", from.Height()),
